@@ -122,6 +122,8 @@ def _cache_key(ctx, model):
                "key = (type(expr), expr, args, frozen kwargs)" if not missing else
                f"CachedMapper.get_cache_key leaves {missing} out of the key: "
                + ("4, 4.0 and True share results" if "type(expr)" in missing else
+                  "different expressions can share a cache slot (only their "
+                  "hash is compared)" if "expr" in missing else
                   "calls with different extra arguments share results"),
                {"covers": sorted(got)})
         # kwargs must enter through an order-insensitive hashable
